@@ -339,6 +339,9 @@ class ExcFlow(object):
                 out.append((n, 'StopIteration', 'next() without default'))
             elif fn.endswith('ElementTree.fromstring') or fn == 'ElementTree.fromstring':
                 out.append((n, 'xml.ParseError', 'ElementTree.fromstring'))
+            elif isinstance(n.func, ast.Attribute) and n.func.attr == 'format' and not self._literal_template(f, n.func.value):
+                # the template is computed: a brace in the data that flows into it is read as a replacement field
+                out.append((n, 'KeyError', 'str.format of a computed template'))
             elif fn in ('codecs.open', 'open'):
                 out.append((n, 'OSError', 'open'))
             elif fn.endswith('.read') and isinstance(n.func.value, ast.Name) and any(
@@ -434,6 +437,34 @@ class ExcFlow(object):
                         return True
         return False
 
+    def _literal_template(self, f, e):
+        """Is the receiver of .format() a string literal (directly, by concatenation / repetition of literals, or a module- /
+        class-level name bound to one)?"""
+        if isinstance(e, ast.Constant) and isinstance(e.value, str):
+            return True
+        if isinstance(e, ast.JoinedStr):
+            return False
+        if isinstance(e, ast.BinOp) and isinstance(e.op, (ast.Add, ast.Mult, ast.Mod)):
+            return self._literal_template(f, e.left) and (isinstance(e.op, ast.Mult) or isinstance(e.op, ast.Mod) or self._literal_template(f, e.right))
+        if isinstance(e, ast.Name):
+            m = f.module
+            vals = [st.value for st in m.tree.body if isinstance(st, ast.Assign) for t in st.targets if isinstance(t, ast.Name) and t.id == e.id]
+            if vals and all(self._literal_template(f, v) for v in vals):
+                return True
+            # a local bound once to a literal
+            loc = [a.value for a in f.walk() if isinstance(a, ast.Assign) and len(a.targets) == 1 and isinstance(a.targets[0], ast.Name)
+                   and a.targets[0].id == e.id]
+            return bool(loc) and all(self._literal_template(f, v) for v in loc)
+        if isinstance(e, ast.Attribute) and isinstance(e.value, ast.Name) and e.value.id in ('self', 'cls') and f.cls:
+            c = f.module.classes.get(f.cls)
+            if c is not None:
+                vals = [st.value for st in c.body if isinstance(st, ast.Assign) for t in st.targets if isinstance(t, ast.Name) and t.id == e.attr]
+                return bool(vals) and all(self._literal_template(f, v) for v in vals)
+        if isinstance(e, ast.Call) and isinstance(e.func, ast.Attribute) and e.func.attr in ('join', 'strip', 'lstrip', 'rstrip') \
+                and self._literal_template(f, e.func.value) and all(self._literal_template(f, a) for a in e.args):
+            return True
+        return False
+
     # -- guards that discharge implicit sites ----------------------------------------------------
     def discharged(self, f, node, cls, desc):
         """Path conditions arrive in atomic normal form (pyfront.atomise): conjunctions split, `not` removed, a failed comparison
@@ -460,7 +491,7 @@ class ExcFlow(object):
                 if base and pol and how.startswith('early-exit') and s in (re.sub(r'[\s()]', '', '%d<=len%s' % (n, base)), re.sub(r'[\s()]', '', '%d<len%s' % (n - 1, base))):
                     return 'len guard'
             return None
-        if cls == 'KeyError':
+        if cls == 'KeyError' and isinstance(node, ast.Subscript):
             base, key = unparse(node.value), unparse(node.slice)
             for t, pol, how in conds:
                 if pol and unparse(t) == '%s in %s' % (key, base):
